@@ -272,6 +272,8 @@ def step (s : St) (op impl : String) : St × StepOut :=
         fails := fails ++ [("current_generation_opens", "-", s!"gen={q.gen} bit={qkp} pn={pn} packed={q.packed} result={implHead}")]
       if q.packed && ok && (implInt impl "wbit=" qkp ≠ qkp || implInt impl "dpn=" pn ≠ pn) then
         fails := fails ++ [("roundtrip_exact", "-", s!"packed bit={q.bit} pn={pn}: receiver read {impl}")]
+      if q.packed && ok && (implField impl "frames=").getD "ok" ≠ "ok" then
+        fails := fails ++ [("payload_is_frames", "-", s!"pn={pn}: the decrypted payload of a packed packet is not the frames the packer was given plus PADDING: {impl}")]
       if authentic && decodable && q.gen == g.phase + 1 && qkp ≠ g.phase % 2 && !isOld && !tooQuick && !ok then
         fails := fails ++ [("next_generation_opens", "-", s!"gen={q.gen} pn={pn} result={implHead}")]
       if authentic && decodable && q.gen == g.phase - 1 && qkp ≠ g.phase % 2 && isOld && !g.prevDropped && !ok then
@@ -307,7 +309,7 @@ def step (s : St) (op impl : String) : St × StepOut :=
           g := { g with firstRcvdInPhase := some pn, prevDropAt := if g.phase > 0 then some (t + s.env.pto3) else g.prevDropAt }
       let usedTag := match used with | .none => "none" | .prev => "prev" | .cur => "cur" | .next => "next"
       return ((s.setA ep a).setG ep g,
-       mk (fmtRes r ++ (if p.packed && r == .ok then s!" wbit={kp} dpn={mpn}" else "") ++ " " ++ fmtState a)
+       mk (fmtRes r ++ (if p.packed && r == .ok then s!" wbit={kp} dpn={mpn} frames=ok" else "") ++ " " ++ fmtState a)
          ([s!"open:{fmtRes r}:{usedTag}"] ++ (if p.packed then [s!"open:packed:{fmtRes r}"] else []) ++ (if a.keyPhase ≠ a0.keyPhase then ["open:remote-roll"] else []) ++
                  (if (a0.dropExpired t).prevPresent ≠ a0.prevPresent then ["open:prev-dropped"] else []))
          fails)
